@@ -42,6 +42,9 @@ def token_language(tok):
 
 
 def run(ctx, model):
+    from . import signatures as _sig
+    _n_sig = _sig.check(ctx, model, "R-SIGNATURE", lambda k: ':Date.' in k)
+    ctx.floor("R-SIGNATURE", _n_sig, 1, "public entry points")
     ctx.explanation = (
         "Date.__date_formats, Date.__date_pre and Date.__init__ are walked by the abstract interpreter in meta mode "
         "(E6: constant loops unrolled, pregex.core calls replaced by documented denotations).  The format list must "
@@ -144,7 +147,12 @@ def run(ctx, model):
 
     cases = [("None", [None], want), ("default", [], want), ("one str", ["dd/mm/yyyy"], ["dd/mm/yyyy"]),
              ("list of two", [["d/m/yy", "mm-dd-yyyy"]], ["d/m/yy", "mm-dd-yyyy"]),
-             ("list of one", [["yyyy-mm-dd"]], ["yyyy-mm-dd"])]
+             ("list of one", [["yyyy-mm-dd"]], ["yyyy-mm-dd"]),
+             # the same layout with both separators, NOT next to each other (grouping by layout must not lose one), and the
+             # same format twice
+             ("interleaved layouts", [["dd/mm/yyyy", "mm/dd/yyyy", "dd-mm-yyyy"]], ["dd/mm/yyyy", "mm/dd/yyyy", "dd-mm-yyyy"]),
+             ("interleaved layouts (4)", [["d/m/yy", "yy/m/d", "d-m-yy", "yy-m-d"]], ["d/m/yy", "yy/m/d", "d-m-yy", "yy-m-d"]),
+             ("year twins apart", [["dd/mm/yy", "mm/dd/yyyy", "dd/mm/yyyy"]], ["dd/mm/yy", "mm/dd/yyyy", "dd/mm/yyyy"])]
     for label, args, sel in cases:
         for ext in (False, True):
             k, t = FL.build(model, "Date", list(args) + ([ext] if args else []), {} if args else {"is_extensible": ext})
@@ -186,6 +194,32 @@ def run(ctx, model):
             ctx.violation("R-DATE-SELECT", f_init.relpath, f_init.short, "format validation",
                           "an undocumented format must raise InvalidArgumentValueException", f_init.node.lineno, inp=inp,
                           detail=f"{k} {getattr(t, 'name', '')}")
+
+    # formats handed over in other container FORMS (one-shot iterators, generators, sets ...): either refused with the
+    # documented exception or selecting exactly those formats - never silently something else (an iterator consumed by
+    # a validation pass leaves nothing for the building pass)
+    sel2 = ["dd/mm/yyyy", "yyyy-m-d"]
+    for label, mkarg in [("iterator", lambda: iter(list(sel2))), ("generator", lambda: (f_ for f_ in sel2)), ("map", lambda: map(str, sel2)),
+                         ("reversed", lambda: reversed(sel2[::-1])), ("dict keys", lambda: dict.fromkeys(sel2).keys()),
+                         ("one-element iterator", lambda: iter(["d/m/yy"])), ("empty iterator", lambda: iter([]))]:
+        for ext in (False, True):
+            k, t = FL.build(model, "Date", [mkarg(), ext])
+            inp = f"Date({label}, is_extensible={ext})"
+            ctx.instance("R-DATE-SELECT", key=inp, sample=f"{inp}: {k} {getattr(t, 'name', '')}")
+            if k == "raise":
+                if t.name not in ("InvalidArgumentValueException", "InvalidArgumentTypeException", "NotEnoughArgumentsException"):
+                    ctx.violation("R-DATE-SELECT", f_init.relpath, f_init.short, "<selection>", f"{inp} raises {t.name}", f_init.node.lineno, inp=inp)
+                continue
+            want_sel = {"one-element iterator": ["d/m/yy"], "empty iterator": []}.get(label, sel2)
+            lead, core, trail = FL.strip_looks(t)
+            core_t = t if isinstance(t, Alt) else (FL.cat(*core) if len(core) != 1 else core[0])
+            canon = lambda x: FL.show(FL.cat(*FL.flatten(x))) if x is not None else None
+            got = [canon(x) for x in alts(core_t)]
+            exp = [canon(terms.get(s_)) for s_ in want_sel]
+            if sorted(got) != sorted(x for x in exp if x is not None) or not want_sel:
+                ctx.violation("R-DATE-SELECT", f_init.relpath, f_init.short, "<selection>",
+                              "formats handed over as a one-shot iterable are accepted but the pattern does not alternate exactly them",
+                              f_init.node.lineno, inp=inp, detail=f"{len(got)} alternatives ({FL.show(t)[:60]!r}) for {len(want_sel)} formats")
 
     # ---------------- R-E2E: the text emitted by the real core builders denotes the composed term
     from . import e2e
